@@ -456,7 +456,9 @@ func raceRaw(ctx *core.Ctx, n, rep int) core.Result {
 	fs.Maxpend = []int{0, 4}[rep%2]
 	if rep%3 == 2 {
 		fs.Debuglevel = go9p.DbgLogFcalls
-		fs.Log = go9p.NewLogger(32)
+		if rep%2 == 1 {
+			fs.Log = go9p.NewLogger(32)
+		} // else: the server's own default log (whatever Start sets up), shared by the connections that arrive together
 	}
 	if !fs.Start(fs) {
 		res.Inconclusive = "Start failed"
